@@ -780,7 +780,19 @@ func (f *FuncCFG) ReachingDefs(pt Point, v types.Object) (defs []reachingDef, fr
 		for i := idx - 1; i >= 0; i-- {
 			if as, ok := b.Nodes[i].(*ast.AssignStmt); ok {
 				for li, l := range as.Lhs {
-					if objOfIdent(f.Info, l) == v {
+					isDef := objOfIdent(f.Info, l) == v
+					// `*target = e` inside a spliced helper whose parameter target is bound to &v at the call:
+					// an out-parameter, the assignment defines v
+					if st, isStar := ast.Unparen(l).(*ast.StarExpr); !isDef && isStar && f.regionOf[b] != nil {
+						if po := objOfIdent(f.Info, st.X); po != nil {
+							if arg, _, okp := f.paramArg(po, Point{b, i}); okp {
+								if u, isAddr := ast.Unparen(arg).(*ast.UnaryExpr); isAddr && u.Op == token.AND && objOfIdent(f.Info, u.X) == v {
+									isDef = true
+								}
+							}
+						}
+					}
+					if isDef {
 						rhs := as.Rhs[0]
 						if len(as.Rhs) == len(as.Lhs) {
 							rhs = as.Rhs[li]
@@ -2714,6 +2726,16 @@ func (f *FuncCFG) valuesUnder(e ast.Expr, pt Point, assign map[string]bool, dept
 						}
 						if len(st.Lhs) == len(st.Rhs) {
 							def = st.Rhs[li]
+							// the single result of a spliced helper: what the return taken on this path hands back
+							if c, isCall := ast.Unparen(st.Rhs[li]).(*ast.CallExpr); isCall && len(st.Rhs) == 1 && ret != nil && len(ret.results) == 1 {
+								if reg := f.regionByCall(c); reg != nil {
+									for ri := range reg.rets {
+										if &reg.rets[ri] == ret {
+											def = ret.results[0]
+										}
+									}
+								}
+							}
 						} else if len(st.Rhs) == 1 && ret != nil && li < len(ret.results) {
 							// tuple assignment from a spliced helper: the li-th result of the return taken
 							if reg := f.regionByCall(stmtLevelCall(st)); reg != nil {
